@@ -418,7 +418,7 @@ func (s *c30Server) run(cs c30Case) (stage, got, want, csvText string, keyClasse
 	if err := im.Run(ctx); err != nil {
 		stage := "import-error:" + c30ErrClass(err)
 		if parsed, perr := c30ParseCSV(data); perr != nil || parsed != intended {
-			stage = "export-csv-wrong+" + stage
+			stage = "csv-does-not-reparse+" + stage
 		}
 		return stage, err.Error(), "import succeeds", csvText, keyClasses
 	}
@@ -427,9 +427,9 @@ func (s *c30Server) run(cs c30Case) (stage, got, want, csvText string, keyClasse
 		return "target-read", err.Error(), intended, csvText, keyClasses
 	}
 	if dstSet != srcSet {
-		stage := "import-content"
+		stage := "content(csv-reparses-to-source)"
 		if parsed, perr := c30ParseCSV(data); perr != nil || parsed != intended {
-			stage = "export-csv-wrong"
+			stage = "content(csv-does-not-reparse-to-source)"
 		}
 		return stage, dstSet, srcSet, csvText, keyClasses
 	}
@@ -641,9 +641,44 @@ func TestVerif_C30(t *testing.T) {
 			plainFails[g] = true
 		}
 	}
+	// ... and a group whose failing cases ALL share a key class (row:/col: prefix dropped) is keyed by it
+	common := map[string]map[string]bool{}
+	for _, f := range fails {
+		g := f.stage + " mode=" + c30Mode(f.cs.mode)
+		set := map[string]bool{}
+		for _, k := range f.kcs {
+			set[k[strings.Index(k, ":")+1:]] = true
+		}
+		if common[g] == nil {
+			common[g] = set
+			continue
+		}
+		for k := range common[g] {
+			if !set[k] {
+				delete(common[g], k)
+			}
+		}
+	}
 	for _, f := range fails {
 		group := f.stage + " mode=" + c30Mode(f.cs.mode)
 		key := ""
+		if cm := common[group]; len(cm) > 0 && !plainFails[group] || len(common[group]) > 0 && len(classSets[group]) > 3 {
+			var ks []string
+			for k := range common[group] {
+				if k != "plain" {
+					ks = append(ks, k)
+				}
+			}
+			sort.Strings(ks)
+			if len(ks) > 0 {
+				pre := "roundtrip "
+				if strings.HasPrefix(f.stage, "setup-") {
+					pre = "harness-setup "
+				}
+				c.Violate(pre+group+" keys="+strings.Join(ks, ","), f.cs.String()+" csv="+strconv.Quote(f.csv), f.got, f.want)
+				continue
+			}
+		}
 		if plainFails[group] {
 			f.kcs = nil
 		}
